@@ -463,7 +463,7 @@ pub fn run(ctx: &Ctx, pool: &[PoolKey]) {
 	// validators must support the algorithms: P-256, P-384, Ed25519, RSA (webpki's ring provider has no P-521)
 	let keys: Vec<&PoolKey> = pool.iter().filter(|k| !k.is_remote() && ossl::webpki_supports(k.sig) && !k.label.contains("4096") && !k.label.contains("3072")).collect();
 	let dir = directed();
-	let n_random = ctx.scale(1_500, 60_000);
+	let n_random = ctx.scale(6_000, 120_000);
 	let total = dir.len() as u64 + n_random;
 	par_for(total, ctx.threads, |i| {
 		let (wl, idx) = if (i as usize) < dir.len() { ("directed", i) } else { ("random", i - dir.len() as u64) };
